@@ -158,6 +158,7 @@ func runC04(c *Check) {
 	ruleNoDroppedLayerErrors(c, p, "C04-R7", []string{rootPath + "/block", storePkg})
 	ruleVerifyHookAdjacency(c, p, "C04-R8")
 	rulePublisherSeedsEmptyStore(c, p, "C04-R9")
+	ruleSinglePurposeWriters(c, p, "C04-R10")
 }
 
 func runC05(c *Check) {
@@ -247,6 +248,7 @@ func runC05(c *Check) {
 	ruleReexecutionAccepted(c)
 	rulePersistedStateLoadable(c, p, "C05-R5")
 	ruleMarksAfterItems(c, p, "C05-R6")
+	ruleSinglePurposeWriters(c, p, "C05-R7")
 }
 
 // ruleReexecutionAccepted (C05-R4): the apply step executes a block before it records the new
